@@ -375,7 +375,11 @@ def run_lfopt(case):
 
 
 def run_hyp(case):
+    """the hypothesis / model_collection apps over the option space of the model app.  Observed without
+    changing behaviour: every initialise_from_nested call (exceptions are swallowed by app.evo._InitFrom) and
+    the lnL of every likelihood function at the entry and exit of every optimise call"""
     from cogent3 import get_app
+    from cogent3.evolve.likelihood_function import LikelihoodFunction
 
     aln, tree = _aln_tree(case)
 
@@ -386,15 +390,18 @@ def run_hyp(case):
 
     null = app(case["null"])
     alts = [app(a) for a in case["alts"]]
-    hyp = get_app("hypothesis", null, *alts, sequential=case.get("sequential", True))
-    # observe (without changing) what initialise_from_nested does inside the app, where exceptions are swallowed
-    from cogent3.evolve.likelihood_function import LikelihoodFunction
+    ckw = dict(sequential=case.get("sequential", True))
+    if case.get("init_alt") == "identity":
+        ckw["init_alt"] = lambda lf, identifier: lf
+    hyp = get_app(case.get("app", "hypothesis"), null, *alts, **ckw)
 
     orig = LikelihoodFunction.initialise_from_nested
-    log = []
+    had_opt = "optimise" in LikelihoodFunction.__dict__
+    orig_opt = LikelihoodFunction.optimise
+    log, optlog = [], []
 
     def observed(self, nested):
-        rec = dict(lnL_nested=float(nested.lnL))
+        rec = dict(id=id(self), lnL_nested=float(nested.lnL), nfp_self=int(self.nfp), nfp_nested=int(nested.nfp))
         log.append(rec)
         try:
             res = orig(self, nested)
@@ -405,18 +412,37 @@ def run_hyp(case):
         rec["slack_init"] = bounds_slack(self)[0]
         return res
 
+    def observed_opt(self, *a, **kw):
+        rec = dict(id=id(self), start=float(self.lnL))
+        optlog.append(rec)
+        try:
+            return orig_opt(self, *a, **kw)
+        finally:
+            rec["end"] = float(self.lnL)
+
     LikelihoodFunction.initialise_from_nested = observed
+    LikelihoodFunction.optimise = observed_opt
     try:
         r = hyp(aln)
     finally:
         LikelihoodFunction.initialise_from_nested = orig
+        if had_opt:
+            LikelihoodFunction.optimise = orig_opt
+        else:
+            del LikelihoodFunction.optimise
     if not r:
-        return dict(not_completed=str(r)[:300])
+        return dict(not_completed=str(r)[:300], init=[{k: v for k, v in e.items() if k != "id"} for e in log])
     names = [case["null"]["name"]] + [a["name"] for a in case["alts"]]
-    lnls = [float(r[n].lnL) for n in names]
-    nfps = [int(r[n].nfp) for n in names]
-    out = dict(lnL=lnls, nfp=nfps, init=log)
-    if len(alts) == 1:
+    lfs = [r[n].lf for n in names]
+    out = dict(lnL=[float(lf.lnL) for lf in lfs], nfp=[int(lf.nfp) for lf in lfs])
+    per = []
+    for lf in lfs:
+        inits = [{k: v for k, v in e.items() if k != "id"} for e in log if e["id"] == id(lf)]
+        opts = [[e["start"], e.get("end")] for e in optlog if e["id"] == id(lf)]
+        per.append(dict(init=inits, opt=opts))
+    out["per"] = per
+    out["init"] = [p["init"][-1] if p["init"] else None for p in per[1:]]
+    if len(alts) == 1 and case.get("app", "hypothesis") == "hypothesis":
         out["LR"] = float(r.LR)
     return out
 
